@@ -254,7 +254,12 @@ def termination_rule(prog, chk, pid, an: ExcAnalysis):
                         v = unsnap(u.d["value"])
                         m2 = meth_call(v)
                         if m2 and m2[1] == "split" and unsnap(m2[0]).op == "loopvar" and unsnap(m2[0]).args[1] == nm and len(m2[2]) == 2 and is_const(m2[2][0]) and cval(m2[2][0]) != "":
-                            okr = True
+                            # ... and that statement must not be skippable for the empty string: no branch between the loop head and it
+                            fs = list(u.ctx)
+                            i = max(k for k, f in enumerate(fs) if f[0] == "loop" and f[1] == lid)
+                            extra = [f for f in fs[i + 1:] if f[0] in ("if", "loop") and not (f[0] == "if" and cond is not None and f[1] is cond)]
+                            if not extra:
+                                okr = True
             ok = okr
             why = "at end of input readline() returns '' forever: neither the condition nor the body stops the loop"
         else:
